@@ -343,7 +343,7 @@ func init() {
 			if th {
 				return 5
 			}
-			return 3
+			return 4
 		}}
 }
 
